@@ -253,79 +253,9 @@ def run(ctx):
     # figure it was handed - `available = balance + <its own parameter>`, nothing re-derived from State, which the
     # realising helper has already changed - and (b) is handed, by both liquidation replies, either zero or the value
     # the realising helper returned (verified above to be the queued Withdraw)
-    from .balance import is_balance_value, balance_fns
+    from .balance import sizing_instances
     verified = {k.split(":", 2)[2] for k in [i.key for i in ctx.insts if i.key.startswith("R07.5:reported-equals-queued:") and i.ok]}
-    sizers = {}
-    for f in sorted(w.crate_fns(ENG), key=lambda f: f.pretty):
-        if f.derived or "::_::" in f.pretty or f.kind == "Closure":
-            continue
-        try:
-            oks = ix.ok_paths(f)
-        except Exception:
-            continue
-        for pth in oks:
-            if not any(e.target is not None and any(e.target.key == b.key for b in balance_fns(ctx)) for e in pth.events):
-                continue   # the sizing function is the one that reads the balance itself
-            for s_ in model.path_submsgs(ix, pth):
-                mv = ix.msg_variant(s_.inner_msg()) if s_.inner_msg() is not None else None
-                if not (mv and mv[1] == "Withdraw"):
-                    continue
-                amt = ix.inline(mv[2]["amount"])
-                bals = [x for x in sym.walk(amt) if is_balance_value(ctx, x)]
-                if not bals:
-                    continue
-                # the operand the balance is added to
-                credited = None
-                for x in sym.walk(amt):
-                    if tag(x) == "op" and str(payload(x)[0]).endswith("checked_add") and len(kids(x)) == 2:
-                        a_, b_ = [sym.unwrap(k) if tag(k) == "unwrap" else k for k in kids(x)]
-                        a_ = kids(a_)[0] if tag(a_) == "unwrap" else a_
-                        for (l_, r_) in ((kids(x)[0], kids(x)[1]), (kids(x)[1], kids(x)[0])):
-                            l0 = l_
-                            while tag(l0) == "unwrap":
-                                l0 = kids(l0)[0]
-                            if is_balance_value(ctx, l0) or is_balance_value(ctx, l_):
-                                credited = ix.inline(r_)
-                sizers.setdefault(f.key, []).append(credited)
-    if not sizers:
-        ctx.lost("R07.5", "the function that sizes an insurance top-up from the vault balance")
-    for k, creds in sorted(sizers.items()):
-        f = w.fns[k]
-        bad = None
-        pidx = None
-        for c_ in creds:
-            if c_ is None:
-                continue   # balance alone: nothing is credited
-            if tag(c_) == "param" and payload(c_)[0] == f.key:
-                pidx = payload(c_)[1]
-            elif not (tag(c_) == "int"):
-                bad = bad or "credits %s on top of the balance, which is not the figure it was handed" % sym.show(c_, 5)
-        ctx.inst("R07.5", "credits-what-it-is-told:%s" % short_fn(f), bad is None, f.where(), bad or "available = balance + parameter #%s" % pidx)
-        if pidx is None:
-            continue
-        for ckey in ("Liquidate>id6", "Liquidate>id7"):
-            st = em.reply_step(ckey)
-            if st is None:
-                continue
-            badc = None
-            ncalls = 0
-            for q in st.ok_paths():
-                for e in q.events:
-                    if e.target is None or e.target.key != k or pidx >= len(e.args):
-                        continue
-                    ncalls += 1
-                    a = ix.inline(e.args[pidx])
-                    a0 = a
-                    while tag(a0) in ("unwrap",):
-                        a0 = kids(a0)[0]
-                    ok_ = tag(a0) == "int" and int(payload(a0)[0]) == 0
-                    if tag(a0) == "call":
-                        t_ = ix.call_target(a0)
-                        ok_ = ok_ or (t_ is not None and short_fn(t_) in verified)
-                    if not ok_:
-                        badc = badc or "is told %s, which is not the amount the realising helper queued" % sym.show(a, 5)
-            if ncalls:
-                ctx.inst("R07.5", "told-the-queued-amount:%s" % ckey, badc is None, st.fn.where(), badc or "%d calls: zero or the realising helper's return value" % ncalls)
+    sizing_instances(ctx, em, "R07.5", verified=verified)
 
     # ---------------------------------------------------------------- R07.7
     # a zero-amount bank send / cw20 transfer / insurance Withdraw is rejected by the receiving module and the
